@@ -181,7 +181,7 @@ class SWCLike(ABC):
         extra_cols: Optional[list[str]] = None,
         **kwargs,
     ) -> str | None:
-        if swc_path is None:
+        if swc_path is not None:
             warnings.warn(
                 "`swc_path` has been renamed to `fname` since v0.5.1, "
                 "and will be removed in next version",
